@@ -154,7 +154,12 @@ def run_for(pid, seed=0):
                         seed_fired.append(name)
                     else:
                         seed_missed.append(name)
+    # the verdict on the *current* tree must not depend on how the code is spelled: the same rules on behaviour-preserving rewrites of
+    # the whole package (sa/variants.py; AST transformations, nothing is executed)
+    rewrites = _rewrite_invariance(pid)
     weak = []
+    for name, why in rewrites["changed"]:
+        weak.append(f"verdict changes under the behaviour-preserving rewrite `{name}`: {why}")
     if seed_missed:
         weak.append(f"seeded defects no longer detected: {', '.join(seed_missed)}")
     if missed:
@@ -165,12 +170,53 @@ def run_for(pid, seed=0):
         "selftest": {"mutants_fired": len(fired), "mutants_total": len(muts) - len([s for s in stale if s in {m['id'] for m in muts}]),
                      "twins_silent": len(silent), "twins_total": len(twins) - len([s for s in stale if s in {m['id'] for m in twins}]),
                      "undecided_variants": und, "stale_variants": stale, "fired": fired, "missed": missed, "noisy": noisy,
-                     "seeded_fired": seed_fired, "seeded_missed": seed_missed},
+                     "seeded_fired": seed_fired, "seeded_missed": seed_missed,
+                     "rewrites_invariant": rewrites["same"], "rewrites_changed": [n for n, _ in rewrites["changed"]]},
         "selftest_summary": f"SELFTEST property={pid} mutants_fired={len(fired)}/{len(muts)} twins_silent={len(silent)}/{len(twins)} "
-                            f"seeded_fired={len(seed_fired)}/{len(seed_fired) + len(seed_missed)} undecided={len(und)} stale={len(stale)}",
+                            f"seeded_fired={len(seed_fired)}/{len(seed_fired) + len(seed_missed)} undecided={len(und)} stale={len(stale)} "
+                            f"rewrites_invariant={len(rewrites['same'])}/{len(rewrites['same']) + len(rewrites['changed'])}",
         "selftest_weak": weak,
     }
     return out
+
+
+def _rewrite_one(args):
+    pid, name, repo = args
+    import shutil
+    import tempfile
+    from sa import check, variants
+    from sa.core import report
+    tmp = tempfile.mkdtemp(prefix="verif-rw-")
+    try:
+        shutil.copytree(os.path.join(repo, "amaranth_soc"), os.path.join(tmp, "amaranth_soc"), ignore=shutil.ignore_patterns("__pycache__"))
+        for fn in variants.VARIANTS[name]:
+            variants.rewrite(tmp, fn)
+        rep = check.run_property(pid, "quick", tmp)
+        code, unlisted, hits, undl = report.verdict(rep)
+        return name, code, sorted({o.rule for o in unlisted}), sorted({o.rule for o in undl})
+    except Exception as e:                              # a rewrite that cannot be applied says nothing
+        return name, None, [f"{type(e).__name__}: {e}"], []
+    finally:
+        shutil.rmtree(tmp, ignore_errors=True)
+
+
+def _rewrite_invariance(pid, repo="/repo"):
+    from concurrent.futures import ProcessPoolExecutor as _PPE
+    from sa import check, variants
+    from sa.core import report
+    base = check.run_property(pid, "quick", repo)
+    bcode, bun, bhits, bund = report.verdict(base)
+    bkey = (bcode, sorted({o.rule for o in bun}), sorted({o.rule for o in bund}))
+    same, changed = [], []
+    with _PPE(max_workers=min(8, len(variants.SAFE))) as ex:
+        for name, code, viol, und in ex.map(_rewrite_one, [(pid, n, repo) for n in variants.SAFE]):
+            if code is None:
+                continue
+            if (code, viol, und) == bkey:
+                same.append(name)
+            else:
+                changed.append((name, f"exit {bkey[0]} -> {code}; violated rules {bkey[1]} -> {viol}; undecided {bkey[2]} -> {und}"))
+    return {"same": same, "changed": changed}
 
 
 def main():
